@@ -22,6 +22,14 @@ func runOtherSuite(suite string, rng *Rng, thorough bool, s *Sink) bool {
 		suiteC16(rng, thorough, s)
 	case "c17":
 		suiteC17(rng, thorough, s)
+	case "c12cold":
+		suiteCold(s, "reglist.", "append.")
+	case "c13cold":
+		suiteCold(s, "product.", "type.")
+	case "c14cold":
+		suiteCold(s, "enum.")
+	case "c15cold":
+		suiteCold(s, "fieldlist.")
 	default:
 		return runApiSuite(suite, rng, thorough, s)
 	}
